@@ -13,7 +13,7 @@ EXPLANATION = (
     "HttpStatusRange -> StatusCode::Range mapping is injective onto 1..=5 and composes with the lexer's digit mapping to "
     "the identity. (R3) PATH-PARAM - every Parameter::Path gets required = constant true (followed one call level), and "
     "path key and path parameters are computed from the same Uri, both walking UriSegment::Variable of uri.path. "
-    "OperationId uniqueness, distinct variable names in a path and the YAML round trip are not decided.")
+    "(R5) BASE-CLOSED - the base's paths are replaced wholesale (shared with C14) and the kept component maps are reported as able to hold dangling references; (R6) OPID - every path segment and the method contribute to the synthesised operationId, the segment label is injective (no case folding, literal/variable marked, empty segment labelled). Distinct variable names in a path and the YAML round trip are not decided.")
 TECHNIQUE = "static analysis: constructor census + MIR dominance/polarity agreement + constant provenance"
 
 
@@ -357,8 +357,83 @@ def r3_path_param(c, facts):
         c.bad(R, 'parameter-name-not-prop.name', 'the parameter name no longer derives from prop.name, which is what the path key contains')
 
 
+def r5_base_closed(c, facts):
+    """the base document: paths are replaced wholesale (shared with C14.R1/R3); the kept component maps can still refer to
+    the replaced schemas (genuine, recorded)"""
+    import c14
+    R = c.rule('C03.R5', 'BASE-CLOSED: nothing of the base that can hold a $ref to a schema survives the replacement of the schemas')
+    c.shared(R, c14.r1_frame, 'C14.R1', facts)
+    c.shared(R, c14.r3_from_program, 'C14.R3', facts)
+    into = c.anchor(R, 'oal_openapi::Builder::into_openapi')
+    writes, roots = c14.census(into)
+    whole_components = any(tuple(w['path']) == ('components',) and w['kind'] == 'assign' for w in writes)
+    schemas_only = any(tuple(w['path']) == ('components', 'schemas') for w in writes)
+    if schemas_only and not whole_components:
+        c.bad(R, 'base-components-kept-while-schemas-replaced',
+              'into_openapi keeps the non-schema components of the base (responses, parameters, request bodies, ...) but replaces components.schemas with the program\'s schemas: a $ref from a kept component to a schema of the base dangles in the output')
+
+
+def r6_operation_ids(c, facts):
+    R = c.rule('C03.R6', 'OPID: the synthesised operationId is an injective function of (method, path)')
+    xi = c.anchor(R, 'oal_openapi::Builder::xfer_id')
+    idx = MF.defs_index(xi)
+    # every segment contributes: the iterator over uri.path is not narrowed
+    SUB = {'filter', 'take', 'skip', 'take_while', 'skip_while', 'filter_map', 'step_by', 'split_last', 'split_first', 'rsplit', 'last', 'nth', 'get', 'windows', 'chunks'}
+    narrowed = set()
+    seen_path = False
+    for f2 in [xi] + facts.closures_of(xi):
+        for b, t in f2.calls():
+            info = callee_of(t)
+            if not info:
+                continue
+            nm = P.strip(info['def']).split('::')[-1]
+            recv_ty = (info.get('self_ty') or '') + ' ' + (t['args'][0].get('ty', '') if t['args'] else '')
+            if 'UriSegment' in recv_ty:
+                seen_path = True
+                if nm in SUB:
+                    narrowed.add(nm)
+    if not seen_path:
+        c.bad(R, 'xfer_id:path-not-used', 'xfer_id no longer derives the operationId from the path segments')
+    elif narrowed:
+        c.bad(R, 'xfer_id:segments-narrowed:%s' % ','.join(sorted(narrowed)), 'xfer_id drops or selects path segments (%s) before labelling them: two different paths get the same operationId' % ', '.join(sorted(narrowed)))
+    else:
+        c.ok(R, {'xfer_id': 'every segment of uri.path is labelled'})
+    if P.call_blocks(xi, 'Builder::method_label'):
+        c.ok(R, {'xfer_id': 'prefixed with the method label'})
+    else:
+        c.bad(R, 'xfer_id:no-method-prefix', 'the operationId no longer starts with the method: two methods of one path collide')
+    # explicit ids win
+    lab = c.anchor(R, 'oal_openapi::Builder::uri_segment_label')
+    folds = sorted({P.strip(callee_of(t)['def']).split('::')[-1] for b, t in lab.calls() if callee_of(t) and P.strip(callee_of(t)['def']).split('::')[-1] in ('to_lowercase', 'to_uppercase', 'to_ascii_lowercase', 'to_ascii_uppercase')})
+    if folds:
+        c.bad(R, 'segment-label-case-folded', 'uri_segment_label case-folds the segment (%s): paths that differ only in case get the same operationId' % ','.join(folds))
+    else:
+        c.ok(R, {'uri_segment_label': 'no case folding'})
+    # literal and variable segments must be distinguishable in the label
+    from facts import hir_walk, pat_variants
+    marked = {}
+    for e, anc in hir_walk(lab.hir['body']):
+        if e['k'] == 'match' and 'UriSegment' in e['scrut']['ty']:
+            for arm in e['arms']:
+                vs = pat_variants(arm['pat'])
+                has_marker = any(x['k'] == 'call' and (callee_def(x) or '').endswith('fmt::format') or (x['k'] == 'lit' and x['v'].startswith('Str(') and 'root' not in x['v']) for x, _ in hir_walk(arm['body']))
+                for v in vs:
+                    marked[v] = has_marker
+    if marked and not any(marked.values()):
+        c.bad(R, 'literal-and-variable-segments-conflated', 'uri_segment_label labels a literal segment and a variable segment with the bare name: /a/b and /a/{b} get the same operationId')
+    elif marked:
+        c.ok(R, {'uri_segment_label': 'literal and variable segments are marked differently', 'arms': marked})
+    empty_root = any(e['k'] == 'lit' and 'root' in e['v'] for e, _ in hir_walk(lab.hir['body']))
+    if empty_root:
+        c.ok(R, {'uri_segment_label': 'an empty segment is labelled (trailing slash is distinguished)'})
+    else:
+        c.bad(R, 'empty-segment-unlabelled', 'an empty path segment contributes no label: /a and /a/ get the same operationId')
+
+
 def run(c, facts):
     import c04
+    c.run(r5_base_closed, facts)
+    c.run(r6_operation_ids, facts)
     c.run(lambda c: c04.r5_status_conv(c, facts, rule='C03.R4'))
     c.run(r1_ref_close, facts)
     c.run(r2_status_dom, facts)
